@@ -18,7 +18,7 @@ RULE = ("a case is (scheme, valid base configuration with 1..3 edits, database v
         "primitive names <- other spellings, names of the wrong kind, unknown names, '', None; plus the exhaustive sweep of every "
         "single-key deletion for every scheme. The database takes identifier size, keyword limit and capacities from the edited "
         "configuration; when these are not positive integers no valid database exists and the case is counted as vacuous. "
-        "Oracle: an exception in SSEConfig/SSEScheme/KeyGen/EDBSetup/TokenGen/Search, or every search (all keywords + 2 absent, each token used twice, "
+        "Oracle: an exception in SSEConfig/SSEScheme/KeyGen/EDBSetup/TokenGen/Search, or every search (all keywords + 2 absent, each token used twice, again after the same scheme object encrypted a smaller database, "
         "and for one case in six the serialized index and tokens searched by ANOTHER PROCESS) "
         "equals DB.get(w, empty); for deletions: refused while the configuration is built, or the whole workflow is correct. "
         "Non-trivial = configuration differs from the base and a valid database exists; distinct = distinct (scheme, edits, profile).")
@@ -185,6 +185,17 @@ def run_case(case, res=None):
                 stage = "Search(again)"
                 for w, tk in reversed(tokens):
                     results.append((w, sch.Search(edb, tk).get_result_list()))
+                # the same scheme object builds an index for a SMALLER database (first posting of every list only, half of the
+                # keywords); "every search on the resulting index" still refers to the first index: search it once more
+                if len(db) >= 1:
+                    stage = "EDBSetup(second database)"
+                    small = {w: list(v[:1]) for w, v in list(db.items())[:max(1, len(db) // 2)]}
+                    sch.EDBSetup(key, small)
+                    for w, _tk in tokens[:4]:
+                        stage = "TokenGen"
+                        tk2 = sch.TokenGen(key, w)
+                        stage = "Search(first index after a second setup)"
+                        results.append((w, sch.Search(edb, tk2).get_result_list()))
                 wire = None
                 if case.get("process_boundary"):
                     stage = "serialize"
